@@ -117,6 +117,11 @@ pub struct Acc {
     /// digest of the run in flight
     pub run_digest: u64,
     last_kind: u8,
+    /// known-finding classes (exact, or prefix when ending in '*') for the property being
+    /// run; an engine that can continue past a known finding asks `is_known` and records
+    /// the hit instead of aborting the run
+    pub known: Arc<Vec<String>>,
+    pub known_hits: BTreeMap<String, u64>,
 }
 
 impl Acc {
@@ -130,7 +135,15 @@ impl Acc {
             steps_checked: 0,
             run_digest: 0,
             last_kind: 255,
+            known: Arc::new(Vec::new()),
+            known_hits: BTreeMap::new(),
         }
+    }
+    pub fn is_known(&self, class: &str) -> bool {
+        class_is_known(&self.known, class)
+    }
+    pub fn known_hit(&mut self, class: &str) {
+        *self.known_hits.entry(class.to_string()).or_insert(0) += 1;
     }
     pub fn begin_run(&mut self, seed: u64) {
         self.run_digest = seed;
@@ -190,7 +203,17 @@ impl Acc {
         }
         self.ops += other.ops;
         self.steps_checked += other.steps_checked;
+        for (k, v) in &other.known_hits {
+            *self.known_hits.entry(k.clone()).or_insert(0) += v;
+        }
     }
+}
+
+pub fn class_is_known(known: &[String], class: &str) -> bool {
+    known.iter().any(|k| match k.strip_suffix('*') {
+        Some(prefix) => class.starts_with(prefix),
+        None => k == class,
+    })
 }
 
 /// Result of one simulated run.
